@@ -401,7 +401,34 @@ func (fc *FnCtx) shift(op token.Token, a, b Val, st *State, pos token.Pos) Val {
 			}
 			return Val{T: app("div", a.T, p.String()), Ty: ty}
 		}
-		fc.fail(pos, "non-constant shift in `arith int` mode")
+		// non-constant count on a mathematical integer: a case split over the counts 0..63 (x * 2^k resp. x div 2^k, linear
+		// for each k); larger counts give 0 (or -1 for a negative x shifted right), as in Go
+		cnt := b.T
+		if fc.isBVType(b.Ty) {
+			cnt = fc.bvToInt(b.T, b.Ty)
+		} else if st != nil {
+			fc.assert(st, app(">=", b.T, "0"), "shift", "shift count is non-negative", pos)
+		}
+		var t string
+		if op == token.SHL {
+			t = "0"
+		} else {
+			t = ite(app("<", a.T, "0"), "(- 1)", "0")
+		}
+		for k := 63; k >= 0; k-- {
+			p := new(big.Int).Lsh(big.NewInt(1), uint(k)).String()
+			var e string
+			if op == token.SHL {
+				e = app("*", a.T, p)
+			} else {
+				e = app("div", a.T, p)
+			}
+			t = ite(app("=", cnt, fmt.Sprint(k)), e, t)
+		}
+		if op == token.SHL && st != nil {
+			fc.assert(st, fc.rangeFact(t, ty), "overflow", "shift does not overflow", pos)
+		}
+		return Val{T: t, Ty: ty}
 	}
 	w := intWidth(ty)
 	cw := intWidth(b.Ty)
